@@ -483,7 +483,7 @@ func main() {
 			property = os.Args[2]
 		}
 		run := ev.NewRun(property, "model_checking")
-		checkMapOrder(run, property)
+		run.Guard(func() { checkMapOrder(run, property) })
 		os.Exit(run.Finish())
 	}
 }
